@@ -27,7 +27,9 @@ FSYM = Sym("f")
 
 
 def is_display_fmt(name):
+    # `std::fmt::Display::fmt` unresolved: the call in a helper that is generic over the digit type (`I::Item: Display`)
     return (name.endswith(" as std::fmt::Display>::fmt") and not name.startswith("<rational::")) \
+        or name == "std::fmt::Display::fmt" \
         or (name.startswith("core::fmt::num::") and name.endswith(">::fmt") and "Display for" in name)
 
 
@@ -278,6 +280,15 @@ class PrinterDomain(TermDomain):
             return self.iter_next(it, v, store)
         k = kind(v)
         if k == "gen":
+            cap = store.get(("lead_cap",))
+            if cap is not None:
+                # bounded mode of the small-fraction form: at most `cap` + 1 leading zero digits are followed (a path that
+                # asks for one more is beyond the bound and ends here), and never more than cap + 12 pulls
+                pulled_ = store.get(("pulled",), ())
+                if len(pulled_) > cap and all(zero_known(store, d_) is True for d_ in pulled_):
+                    return []
+                if len(pulled_) > cap + 12:
+                    return []
             cv = clos_view(v)
             if v.kind == "gen":
                 r = it.apply_closure(v.field(0), [], store, getattr(it, "_cur_depth", 0))
@@ -755,21 +766,36 @@ def r2_dispatch(facts, rep, names):
     except core.Undecided as e:
         rep.ob("C08-R2", "split", False, "undecided: %s" % e, body.site())
         return
+    def forms_of(segs_):
+        calls_, dig_ = {}, None
+        for s in segs_:
+            if s.end == "ret" and isinstance(s.value, T) and s.value.op.startswith("call:"):
+                calls_.setdefault(s.value.op[5:], []).append(s)
+        # digits(): the callee whose result is compared with exponent_limit
+        for s in segs_:
+            for p in s.pc:
+                if "call:" in p and "X" in p:
+                    for c in no_inline:
+                        if "call:%s(" % c in p:
+                            dig_ = c
+        return calls_, dig_
+    calls, dig = forms_of(segs)
+    # a helper with a loop that is neither a form (its result is what fmt returns) nor the digit count is part of the
+    # small-fraction form itself (a split-off `skip_leading_zeros`): it is followed, its loops are stop points like fmt's own
+    inner = [n for n in no_inline if n not in calls and n != dig]
+    if inner:
+        no_inline = [n for n in no_inline if n not in inner]
+        h = Harness(facts, body, no_inline=no_inline)
+        st0, selfref = display_self({})
+        try:
+            segs = h.run([selfref, FSYM], extra=st0)
+        except core.Undecided as e:
+            rep.ob("C08-R2", "split", False, "undecided: %s" % e, body.site())
+            return
+        calls, dig = forms_of(segs)
     names["fmt_harness"] = h
     names["fmt_segs"] = segs
-    calls = {}
     bad = []
-    for s in segs:
-        if s.end == "ret" and isinstance(s.value, T) and s.value.op.startswith("call:"):
-            calls.setdefault(s.value.op[5:], []).append(s)
-    # digits(): the callee whose result is compared with exponent_limit
-    dig = None
-    for s in segs:
-        for p in s.pc:
-            if "call:" in p and "X" in p:
-                for c in no_inline:
-                    if "call:%s(" % c in p:
-                        dig = c
     names["digits"] = dig
     big = whole = None
     for c, ss in calls.items():
@@ -863,11 +889,11 @@ def r2_dispatch(facts, rep, names):
     db = facts.fn(dig)
     hd = Harness(facts, db)
     badd = []
-    if len(hd.heads) == 0:
-        # no loop to do induction over (an iterator chain, a string length ...): the function is evaluated on concrete values
-        # around every power of ten up to 10^15 (constant propagation through its MIR), against the specified count
-        ws = sorted({w for k in range(0, 16) for w in (10 ** k - 1, 10 ** k, 10 ** k + 1) if w >= 0} | {12345, 987654321012})
-        n_ok = 0
+
+    def digits_on_values(kmax):
+        """Constant propagation of digits() through its MIR on the values around every power of ten up to 10^kmax."""
+        ws = sorted({w for k in range(0, kmax + 1) for w in (10 ** k - 1, 10 ** k, 10 ** k + 1) if w >= 0} | {12345, 987654321012})
+        n_ok, bad_ = 0, []
         for w in ws:
             dom_ = PrinterDomain(facts)
             it_ = core.Interp(facts, dom_, budget=40000)
@@ -876,15 +902,20 @@ def r2_dispatch(facts, rep, names):
             try:
                 outs_ = it_.run(db, [arg], st_)
             except core.Undecided as e:
-                badd.append("undecided at %d: %s" % (w, e))
+                bad_.append("undecided at %d: %s" % (w, e))
                 break
             got = {_as_int(o.value) if o.kind == "ret" else o.kind for o in outs_}
             want = len(str(w)) - 1
             if got != {want}:
-                badd.append("digits(%d) = %s; specified %d" % (w, sorted(map(str, got)), want))
+                bad_.append("digits(%d) = %s; specified %d" % (w, sorted(map(str, got)), want))
                 break
             n_ok += 1
         rep.count("digits(): concrete values evaluated", n_ok)
+        return bad_
+    if len(hd.heads) == 0:
+        # no loop to do induction over (an iterator chain, a string length ...): the function is evaluated on concrete values
+        # around every power of ten up to 10^15 (constant propagation through its MIR), against the specified count
+        badd = digits_on_values(15)
     elif len(hd.heads) != 1:
         badd.append("%d loops" % len(hd.heads))
     else:
@@ -932,8 +963,18 @@ def r2_dispatch(facts, rep, names):
                         badd.append("path %s -> %s" % (s_.pc, s_.end))
                 if kinds != {"step", "exit"}:
                     badd.append("paths: %s" % sorted(kinds))
+    shape_note = ""
+    if badd and len(hd.heads) >= 1 and not any(x.startswith("undecided") for x in badd):
+        # the loop is not the `divide; while non-zero { divide; count }` shape the induction is written for (a `loop` with an
+        # early return, a do-while ...): decided on values instead - around every power of ten up to 10^40
+        b2 = digits_on_values(40)
+        if not b2:
+            shape_note = " (loop shape not the inductive one: %s; decided by constant propagation on the values around 10^0..10^40)" % badd[0][:80]
+            badd = []
+        else:
+            badd = b2 + badd
     rep.ob("C08-R3", "digits", not badd, "; ".join(badd[:3]) if badd else
-           "digits(W): W := W/10, count 0; while W != 0 { W := W/10; count + 1 }: the number of decimal digits after the first", db.site())
+           "digits(W): W := W/10, count 0; while W != 0 { W := W/10; count + 1 }: the number of decimal digits after the first" + shape_note, db.site())
     # ---- R2: the split ---------------------------------------------------------------------------------------------------
     bad2 = []
     for role in ("big", "whole"):
@@ -954,6 +995,142 @@ def r2_dispatch(facts, rep, names):
 
 
 # ---- R4: format_whole --------------------------------------------------------------------------------------------------
+def r4_bounded(facts, rep, names):
+    """The plain form with limits 0..3, whatever its code looks like: format_whole is explored from its entry with a constant
+    limit and symbolic parameters; the digits come from the symbolic generator.  Every path prints [-] whole; nothing more iff
+    the remainder is zero; otherwise, with a positive limit, '.' and at most `limit` digits, each the long-division digit of
+    the running remainder, fewer only when the remainder ran out; the mark iff the remainder after the last printed digit is
+    non-zero and show_continuation."""
+    path = names.get("whole")
+    body = facts.fn(path) if path else None
+    if body is None:
+        return
+    n_paths = 0
+    for L_ in (0, 1, 2, 3):
+        key = "bounded:limit=%d" % L_
+        dom = PrinterDomain(facts)
+        it = core.Interp(facts, dom, budget=300000)
+        st = {(0, 801): Agg("adt", "rational::display::DisplaySpec", 0, "DisplaySpec", (Const(L_), Sym("X"), Sym("show"))),
+              (0, 800): Agg("adt", "rational::display::Display", 0, "Display", (Sym("x"), Ref(0, 801))),
+              ("out",): (), ("pulled",): (), ("rems",): ()}
+        args, bigs = [], []
+        for i in range(1, body.arg_count + 1):
+            ty = body.local_ty(i)
+            if "rational::display::Display" in ty:
+                args.append(Ref(0, 800))
+            elif "Formatter" in ty:
+                args.append(FSYM)
+            elif ty == "bool":
+                args.append(Sym("neg"))
+            else:
+                args.append(Sym("a%d" % i))
+                if "BigInt" in ty:
+                    bigs.append("a%d" % i)
+        try:
+            outs = it.run(body, args, st)
+        except core.Undecided as e:
+            rep.ob("C08-R4", key, False, "undecided: %s" % e, body.site())
+            continue
+        bad = []
+        seen_ok = 0
+        classes = set()
+        for o in outs:
+            n_paths += 1
+            pc = pc_dict(o.store)
+            if any(("fits_u8" in p and b is False) or (p.startswith("Le(") and "to_u8" in p and b is False) for p, b in pc.items()):
+                continue
+            if o.kind != "ret":
+                bad.append("%s: %s" % (o.kind, str(o.value)[:60]))
+                continue
+            v = o.value
+            if not (isinstance(v, Agg) and v.path == "std::result::Result" and v.vi == 0):
+                continue
+            seen_ok += 1
+            out = list(o.store.get(("out",), ()))
+            negv = pc.get("neg")
+            if negv is None:
+                bad.append("the sign is not consulted")
+                continue
+            k0 = 1 if negv else 0
+            if len(out) <= k0 - 1 or (negv and (not out or out[0][0] != "lit" or not out[0][1].startswith("-"))):
+                bad.append("prints %s; specified a leading '-'" % describe_out(out))
+                continue
+            printed = [a_ for a_ in out if a_[0] == "val" and isinstance(a_[1], Sym) and a_[1].name in bigs]
+            if len(printed) != 1:
+                bad.append("prints %s; specified the whole part once" % describe_out(out))
+                continue
+            dv = printed[0][1].name
+            others = [b_ for b_ in bigs if b_ != dv]
+            remn = [b_ for b_ in others if ("is_zero(%s)" % b_) in pc]
+            if len(others) != 2 or len(remn) != 1:
+                bad.append("parameter roles: whole part %s, others %s, remainder tested: %s" % (dv, others, remn))
+                continue
+            ra, da = remn[0], [b_ for b_ in others if b_ != remn[0]][0]
+            ren = {ra: R, da: D, dv: I}
+            pcr = {repr(subst(p_, ren)): b_ for p_, b_ in pc_of(o.store)}
+            pulled = [subst(d_, ren) for d_ in o.store.get(("pulled",), ())]
+            rems = [subst(r_, ren) for r_ in o.store.get(("rems",), ())]
+            rz = pcr.get("is_zero(R)")
+            want = ([("lit", "-")] if negv else []) + [("val", I)]
+            if rz is True:
+                if pulled:
+                    bad.append("digits are pulled although the remainder is zero")
+                    continue
+                lose = False
+            else:
+                r_spec = R
+                okp = True
+                for i_, d_ in enumerate(pulled):
+                    q_spec = T("idiv", T("*", r_spec, K(10)), D)
+                    zi = pcr.get(repr(T("is_zero", R if i_ == 0 else rems[i_ - 1])))
+                    if i_ >= L_ or zi is not False or not same(d_, q_spec):
+                        bad.append("digit %d is pulled beyond the limit %d, without R != 0, or is not floor(10R/D)" % (i_ + 1, L_))
+                        okp = False
+                        break
+                    r_spec = T("-", T("*", r_spec, K(10)), T("*", D, q_spec))
+                    if i_ < len(rems) and not same(rems[i_], r_spec):
+                        bad.append("after digit %d the remainder is %r" % (i_ + 1, rems[i_]))
+                if not okp:
+                    continue
+                if L_ > 0:
+                    want.append(("lit", "."))
+                want += [("val", d_) for d_ in pulled]
+                last = rems[len(pulled) - 1] if pulled else R
+                lz = pcr.get(repr(T("is_zero", last)))
+                if len(pulled) < L_ and lz is not True:
+                    bad.append("the digits stop after %d with limit %d and the remainder not seen to be zero" % (len(pulled), L_))
+                lose = None if lz is None else (not lz)
+
+            def flat(atoms):
+                o_ = []
+                for a_ in atoms:
+                    if a_[0] == "lit":
+                        o_.extend(("lit", ch_) for ch_ in a_[1])
+                    else:
+                        o_.append(a_)
+                return o_
+            want = flat(want)
+            got = flat([(a_[0], subst(a_[1], ren)) if a_[0] == "val" else a_ for a_ in out])
+            head, tail = got[:len(want)], got[len(want):]
+            hm = len(head) == len(want) and all(g_[0] == w_[0] and (same(g_[1], w_[1]) if (g_[0] == "val" and not isinstance(w_[1], Sym)) else g_[1] == w_[1]) for g_, w_ in zip(head, want))
+            if not hm:
+                bad.append("prints %s; specified %s ..." % (describe_out(out), describe_out(want)))
+                continue
+            txt = "".join(a_[1] for a_ in tail if a_[0] == "lit")
+            show = pc.get("show")
+            has_mark = "…" in txt
+            if has_mark and not (lose is True and show is True):
+                bad.append("the mark is printed where loss = %s, show_continuation = %s" % (lose, show))
+            if not has_mark and not (lose is False or show is False):
+                bad.append("no mark is printed where loss = %s, show_continuation = %s" % (lose, show))
+            if txt.replace("…", "") or any(a_[0] == "val" for a_ in tail):
+                bad.append("the end prints %s; specified nothing but the mark" % describe_out(tail))
+            classes.add((rz, len(pulled), has_mark))
+        rep.ob("C08-R4", key, not bad and seen_ok >= 2, "; ".join(sorted(set(bad))[:3]) if bad else
+               "all %d successful path(s) print [-] whole, then up to %d digit(s) behind a '.', the mark iff something is lost (%d classes)" % (seen_ok, L_, len(classes)), body.site())
+    rep.count("plain form: bounded paths", n_paths)
+
+
 def r4_whole(facts, rep, names):
     rep.rule("C08-R4", "plain form (whole part below the exponent threshold): prints [-] whole; ends there iff the remainder is zero; "
                        "otherwise '.' and digits pulled from the generator through a budget of `limit`: one turn of the digit loop from "
@@ -1031,6 +1208,10 @@ def r4_whole(facts, rep, names):
     base = stop[0].store
     its = [(l, v) for l, v in find_iters(h.it, base, frame=h.frame(H), live=h.live_at(H)) if kind(v) == "take" and gen_of(v, h.it, base) is not None]
     okb = len(its) == 1 and kind(its[0][1]) == "take" and its[0][1].field(1) == Sym("L")
+    if not okb and not (len(its) == 1 and kind(its[0][1]) == "take"):
+        # the budget is not a Take adaptor over the generator (a counter, a helper ...): not a shape this induction knows
+        rep.ob("C08-R4", "anchor:budget", False, "digit iterator at the loop head: %r" % (its,), body.site())
+        return roles
     rep.ob("C08-R4", "budget", okb, "the digit loop runs over take(generator, limit)" if okb else "digit iterator at the loop head: %r" % (its,), body.site())
     if not okb:
         return roles
@@ -1562,6 +1743,169 @@ def r5_small(facts, rep, names):
 U = Sym("u")
 
 
+def zero_known(store, d):
+    """What the path knows about digit d being zero: True / False / None (is_zero(d), d == 0, d != 0, a match on d)."""
+    for p_, b_ in pc_of(store):
+        if not isinstance(p_, T):
+            continue
+        if p_.op == "is_zero" and len(p_.args) == 1 and p_.args[0] == d:
+            return b_
+        if p_.op in ("Eq", "==", "Ne") and len(p_.args) == 2 and d in p_.args and any(
+                isinstance(a_, Const) and a_.v == 0 and not isinstance(a_.v, bool) for a_ in p_.args):
+            return b_ if p_.op != "Ne" else (not b_)
+    return None
+
+
+def r5_bounded(facts, rep, names):
+    """The small-fraction form on values with 0..3 leading zero digits, limits 1..3 and exponent limits 1..3, whatever its code
+    looks like (one loop with flags, several phases, helpers): Display::fmt is explored from its entry with a constant spec
+    and a symbolic value; the digits come from the symbolic generator, the number of leading zeros followed is bounded.  On
+    every path into the form (whole part zero, remainder non-zero): with z leading zeros the text is [-] d ['.' more digits]
+    'e' -(z+1) if z + 1 >= exponent_limit, else [-] '0.' z zeros and the digits; at most `limit` digits from the first non-zero
+    one, fewer only when the remainder ran out; the mark iff the remainder after the last printed digit is non-zero and
+    show_continuation."""
+    body = facts.fn(FMT)
+    no_inline = [n for n in (names.get("digits"), names.get("big"), names.get("whole")) if n]
+    ZMAX = 2
+    n_small = 0
+    n_paths = 0
+    for L_ in (1, 2, 3):
+        for X_ in (1, 2, 3):
+            key = "bounded:limit=%d:exponent_limit=%d" % (L_, X_)
+            dom = PrinterDomain(facts, no_inline=no_inline)
+            it = core.Interp(facts, dom, budget=400000)
+            st = {(0, 801): Agg("adt", "rational::display::DisplaySpec", 0, "DisplaySpec", (Const(L_), Const(X_), Sym("show"))),
+                  (0, 800): Agg("adt", "rational::display::Display", 0, "Display", (Sym("x"), Ref(0, 801))),
+                  ("out",): (), ("pulled",): (), ("rems",): (), ("lead_cap",): ZMAX}
+            try:
+                outs = it.run(body, [Ref(0, 800), FSYM], st)
+            except core.Undecided as e:
+                rep.ob("C08-R5", key, False, "undecided: %s" % e, body.site())
+                continue
+            bad = []
+            seen = {}
+            for o in outs:
+                n_paths += 1
+                pcl = pc_of(o.store)
+                pc = pc_dict(o.store)
+                whole_zero = rem_zero = None
+                for p_, b_ in pcl:
+                    if isinstance(p_, T) and p_.op == "is_zero" and len(p_.args) == 1 and "x" in repr(p_.args[0]):
+                        if same(p_.args[0], X_DIV, GRID_X):
+                            whole_zero = b_
+                        elif same(p_.args[0], X_REM, GRID_X):
+                            rem_zero = b_
+                if not (whole_zero is True and rem_zero is False):
+                    continue
+                if any(("fits_u8" in p and b is False) or (p.startswith("Le(") and "to_u8" in p and b is False) for p, b in pc.items()):
+                    continue
+                if o.kind != "ret":
+                    bad.append("%s: %s" % (o.kind, str(o.value)[:60]))
+                    continue
+                v = o.value
+                if not (isinstance(v, Agg) and v.path == "std::result::Result" and v.vi == 0):
+                    continue
+                pulled = list(o.store.get(("pulled",), ()))
+                rems = list(o.store.get(("rems",), ()))
+                z = 0
+                while z < len(pulled) and zero_known(o.store, pulled[z]) is True:
+                    z += 1
+                sig = pulled[z:]
+                if not sig:
+                    # the generator ran dry on zero digits only: arithmetically impossible (10 * r != 0), not a path of the form
+                    continue
+                n_small += 1
+                if zero_known(o.store, sig[0]) is not False and z > 0:
+                    bad.append("a digit not known to be non-zero ends the leading zeros")
+                    continue
+                if pulled and not same(pulled[0], T("idiv", T("*", X_REM, K(10)), X_ABS_D), GRID_X):
+                    bad.append("the first digit pulled is %r, not the first digit of remainder / den" % (pulled[0],))
+                    continue
+                negv = pc.get("is_negative(x)")
+                if negv is None:
+                    bad.append("the sign is not consulted")
+                    continue
+                if len(sig) > L_:
+                    bad.append("%d digits are printed with limit %d" % (len(sig), L_))
+                    continue
+                last_rem = rems[len(pulled) - 1] if len(rems) >= len(pulled) else None
+                lz = pc.get(repr(T("is_zero", last_rem))) if last_rem is not None else None
+                if len(sig) < L_ and lz is not True:
+                    bad.append("only %d digit(s) are printed with limit %d although the remainder was not seen to be zero" % (len(sig), L_))
+                    continue
+                sci = (z + 1) >= X_
+                want = [("lit", "-")] if negv else []
+                if sci:
+                    want.append(("val", sig[0]))
+                    if len(sig) > 1:
+                        want.append(("lit", "."))
+                    want += [("val", d_) for d_ in sig[1:]]
+                else:
+                    want.append(("lit", "0." + "0" * z))
+                    want += [("val", d_) for d_ in sig]
+
+                def flat(atoms):
+                    o_ = []
+                    for a_ in atoms:
+                        if a_[0] == "lit":
+                            o_.extend(("lit", ch_) for ch_ in a_[1])
+                        else:
+                            o_.append(a_)
+                    return o_
+                want = flat(want)
+                got = flat(o.store.get(("out",), ()))
+                head, tail = got[:len(want)], got[len(want):]
+                if head != want:
+                    bad.append("with %d leading zero(s) prints %s; specified %s ..." % (z, describe_out(o.store.get(("out",), ())), describe_out(want)))
+                    continue
+                txt = "".join(a_[1] for a_ in tail if a_[0] == "lit")
+                vals_ = [a_[1] for a_ in tail if a_[0] == "val"]
+                show = pc.get("show")
+                has_mark = "…" in txt
+                lose = None if lz is None else (not lz)
+                if has_mark and not (lose is True and show is True):
+                    bad.append("the mark is printed where loss = %s, show_continuation = %s" % (lose, show))
+                if not has_mark and not (lose is False or show is False):
+                    bad.append("no mark is printed where loss = %s, show_continuation = %s" % (lose, show))
+                if txt.replace("…", "") != ("e" if sci else "") or (vals_ != [Const(-(z + 1))] if sci else bool(vals_)) \
+                        or (has_mark and not txt.startswith("…")):
+                    bad.append("with %d leading zero(s) the end prints %s; specified %s" % (z, describe_out(tail), "[mark] 'e' %d" % -(z + 1) if sci else "[mark]"))
+                seen[(z, len(sig), sci)] = seen.get((z, len(sig), sci), 0) + 1
+            zs = {k_[0] for k_ in seen}
+            rep.ob("C08-R5", key, not bad and zs >= {0, 1, 2}, "; ".join(sorted(set(bad))[:3]) if bad else (
+                "all small-fraction paths print as specified (leading zeros %s, %d classes)" % (sorted(zs), len(seen)) if zs >= {0, 1, 2}
+                else "paths with 0, 1 and 2 leading zeros were expected; found %s" % sorted(zs)), body.site())
+    rep.count("small-fraction form: bounded paths", n_paths)
+    rep.floor("C08-R5", "small-fraction paths in the bounded exploration", n_small, 50)
+
+
+def deepening(rep, sub):
+    """Merge a rule that has a bounded form (keys `bounded:*`) and an inductive form (everything else), run into `sub`.
+    The inductive form is written for loops it can recognise; where only its anchors fail (`anchor:*` / `floor:*`: the
+    state of the loops is not laid out the way it knows) and the bounded form has decided the rule, that is not a finding
+    about the code and is recorded as a note.  Any other failure is reported as it is."""
+    def base(o):
+        return o["key"].split("[")[0]
+    bounded = [o for o in sub.obls if base(o).startswith("bounded:")]
+    decided_ok = bool(bounded) and all(o["ok"] for o in bounded)
+    failed = [o for o in sub.obls if not o["ok"] and not base(o).startswith("bounded:")]
+    only_anchors = bool(failed) and all(base(o).startswith("anchor:") or (base(o).startswith("floor:") and "bounded" not in base(o)) for o in failed)
+    for o in sub.obls:
+        if not o["ok"] and o in failed and only_anchors and decided_ok:
+            o = dict(o)
+            o["ok"] = True
+            o["nontrivial"] = False
+            o["detail"] = "inductive deepening not applicable (the bounded form of this rule decides): " + o["detail"]
+        rep.obls.append(o)
+    rep.floors.extend(sub.floors)
+    for k_, v_ in sub.analysed.items():
+        rep.count(k_, v_)
+    for k_, v_ in sub.rules.items():
+        rep.rules.setdefault(k_, v_)
+    for a_ in sub.assumptions:
+        rep.assume(a_)
+
+
 def r6_big(facts, rep, names):
     rep.rule("C08-R6", "scientific form (whole part W with at least exponent_limit + 1 digits): prints [-] first digit of W, '.' iff W has "
                        "more digits; then W's further digits through a budget of `limit` (one turn from an arbitrary state: budget n = 0 or "
@@ -1779,6 +2123,10 @@ def r6_big(facts, rep, names):
             roles["rem"], roles["den"] = r0.name, d0.name
         else:
             okf = False
+    if not okf and not ((len(its2) == 1) or (not its2 and len(gens2) == 1 and len(cnt2) == 1)):
+        # the budget of the fraction loop is kept in a way the induction does not know (a counter counting up, a helper ...)
+        rep.ob("C08-R6", "anchor:fraction", False, "fraction iterators: %r, counters %s" % (gens2, cnt2), body.site())
+        return
     rep.ob("C08-R6", "fraction:entry", okf, "fraction digits come from generator(remainder, den) under a budget of limit - used" if okf else "fraction iterators: %r, counters %s" % (gens2, cnt2), body.site())
     if not okf:
         return
@@ -2043,11 +2391,22 @@ def run(fx, rep, tier):
         return
     r1_generator(facts, rep, names)
     r2_dispatch(facts, rep, names)
-    rw = r4_whole(facts, rep, names)
+    sub4 = type(rep)(rep.prop, rep.tier)
+    sub4.only = rep.only
+    r4_bounded(facts, sub4, names)
+    rw = r4_whole(facts, sub4, names)
+    deepening(rep, sub4)
     if rw:
         names["roles_whole"] = rw
-    r5_small(facts, rep, names)
-    r6_big(facts, rep, names)
+    def with_deepening(fn, *more):
+        sub_ = type(rep)(rep.prop, rep.tier)
+        sub_.only = rep.only
+        for f_ in more:
+            f_(facts, sub_, names)
+        fn(facts, sub_, names)
+        deepening(rep, sub_)
+    with_deepening(r5_small, r5_bounded)
+    with_deepening(r6_big)
     r7_agreement(facts, rep, names)
     if "rel" in fx:
         # thorough: the same rules on the release-like MIR (no debug assertions, no overflow checks)
@@ -2057,11 +2416,17 @@ def run(fx, rep, tier):
         if n2 is not None:
             r1_generator(f2, sub, n2)
             r2_dispatch(f2, sub, n2)
-            rw = r4_whole(f2, sub, n2)
+            s4_ = type(rep)(rep.prop, rep.tier)
+            r4_bounded(f2, s4_, n2)
+            rw = r4_whole(f2, s4_, n2)
+            deepening(sub, s4_)
             if rw:
                 n2["roles_whole"] = rw
-            r5_small(f2, sub, n2)
-            r6_big(f2, sub, n2)
+            for fns_ in ((r5_bounded, r5_small), (r6_big,)):
+                s2_ = type(rep)(rep.prop, rep.tier)
+                for f_ in fns_:
+                    f_(f2, s2_, n2)
+                deepening(sub, s2_)
             r7_agreement(f2, sub, n2)
         for o in sub.obls:
             o["key"] += "[rel]"
@@ -2114,5 +2479,11 @@ def generator_code_paths(facts):
         rty = facts.fn(e).local_ty(0).split("<")[0]
         if rty in GEN_ADTS:
             out.add(GEN_ADTS[rty]["next"])
+        # ... and the functions only that step uses (a `next_digit(rem, den)` the closure forwards to)
+        from ..callgraph import CallGraph as _CG
+        cg = _CG(facts)
+        roots = [p_ for p_ in out if p_ in cg.local]
+        if roots:
+            out |= {p_ for p_ in cg.exclusive(roots) if facts.fn(p_) is not None and facts.fn(p_).file == facts.fn(e).file}
     return out
 
